@@ -785,20 +785,27 @@ theorem wrapping_conversion_counterexample :
         = (.raises "OverflowError" : PubOutcome Nat) := by
   decide
 
-/-- The statements of `Row.__new__` between the dictionary test and the helper call (as the source has them now,
-`Gen.DictGlue.rowPrepare`) hand the helper an exact `dict` in which every field name finds what it finds in the
-caller's dictionary -- whatever the keys of that dictionary are (numbers, `None`, bytes, tuples, instances of `str`
-subclasses next to or instead of text). -/
+/-- The statements of `Row.__new__` in front of the dictionary test, that test, and the statements between it and the
+helper call (as the source has them now, `Gen.DictGlue.rowPre` / `rowGuard` / `rowPrepare`): every dictionary-like
+argument -- an exact `dict`, an instance of a subclass, a `Mapping` that is no dict (UserDict, ChainMap,
+MappingProxyType, a class of the caller's) -- passes the test, and the helper is handed an exact `dict` in which every
+field name finds what it finds in the caller's mapping, whatever the keys of that mapping are (numbers, `None`, bytes,
+tuples, instances of `str` subclasses next to or instead of text). -/
 theorem row_prepare_keeps_dictionary (d : PyDict α) :
-    (Gen.DictGlue.rowPrepare d).exact = true ∧ ∀ f, (Gen.DictGlue.rowPrepare d).get f = d.get f := by
-  obtain ⟨e, items⟩ := d
-  cases e <;> simp [Gen.DictGlue.rowPrepare, PyDict.copy, PyDict.get]
+    Gen.DictGlue.rowGuard (Gen.DictGlue.rowPre d) = true
+    ∧ (Gen.DictGlue.rowPrepare (Gen.DictGlue.rowPre d)).exact = true
+    ∧ ∀ f, (Gen.DictGlue.rowPrepare (Gen.DictGlue.rowPre d)).get f = d.get f := by
+  obtain ⟨e, i, m, items⟩ := d
+  cases e <;> cases i <;>
+    simp [Gen.DictGlue.rowPre, Gen.DictGlue.rowGuard, Gen.DictGlue.rowPrepare, PyDict.copy, PyDict.get]
 
-/-- Any glue that admits the dictionary, hands the helper an exact `dict` and keeps what each field name finds builds
-the row of the definition. -/
-theorem row_glue_sound (guard : PyDict α → Bool) (prepare : PyDict α → PyDict α) (null : α) (fields : List String)
-    (d : PyDict α) (hg : guard d = true) (he : (prepare d).exact = true) (hp : ∀ f, (prepare d).get f = d.get f) :
-    rowNewOf guard prepare null (createClass fields false) (.dict d) = some (fields.map fun f => (d.get f).getD null) := by
+/-- Any glue that brings the argument past the dictionary test, hands the helper an exact `dict` and keeps what each
+field name finds builds the row of the definition. -/
+theorem row_glue_sound (pre : PyDict α → PyDict α) (guard : PyDict α → Bool) (prepare : PyDict α → PyDict α) (null : α)
+    (fields : List String) (d : PyDict α) (hg : guard (pre d) = true) (he : (prepare (pre d)).exact = true)
+    (hp : ∀ f, (prepare (pre d)).get f = d.get f) :
+    rowNewOf pre guard prepare null (createClass fields false) (.dict d)
+      = some (fields.map fun f => (d.get f).getD null) := by
   unfold rowNewOf
   simp only [createClass, hg, he, Bool.false_eq_true, if_false, if_true, DictRow.extract]
   congr 1
@@ -807,24 +814,27 @@ theorem row_glue_sound (guard : PyDict α → Bool) (prepare : PyDict α → PyD
   rw [lookup_helperView]
   exact congrArg (fun o => o.getD null) (hp f)
 
-/-- **Field extraction through the caller, for arbitrary dictionaries**: a row built from a dictionary through a
-class made by `Row.create_class(fields)` is `tuple(data.get(field) for field in fields)` -- the value stored under
-the field name *as text*, or null; a key that is not text (`1`, `None`, `True`, `b'a'`, a tuple, an instance of a
-`str` subclass with its own `__eq__`) is never mistaken for the field its `str()` spells.  About the guard and the
-statements of the source as it is now. -/
+/-- **Field extraction through the caller, for arbitrary dictionaries**: a row built from a dictionary -- or from any
+other `Mapping` -- through a class made by `Row.create_class(fields)` is `tuple(data.get(field) for field in fields)`
+-- the value stored under the field name *as text*, or null; a key that is not text (`1`, `None`, `True`, `b'a'`, a
+tuple, an instance of a `str` subclass with its own `__eq__`) is never mistaken for the field its `str()` spells, and a
+mapping that is no dict never gives a row of its keys.  About the statements and the guard of the source as it is now. -/
 theorem row_from_dict_is_get_per_field (null : α) (fields : List String) (d : PyDict α) :
     rowNew null (createClass fields false) (.dict d) = some (fields.map fun f => (d.get f).getD null) :=
-  row_glue_sound _ _ null fields d (by simp [Gen.DictGlue.rowGuard]) (row_prepare_keeps_dictionary d).1
-    (row_prepare_keeps_dictionary d).2
+  row_glue_sound _ _ _ null fields d (row_prepare_keeps_dictionary d).1 (row_prepare_keeps_dictionary d).2.1
+    (row_prepare_keeps_dictionary d).2.2
 
-/-- Non-vacuity: `{1: 20, '1': 10, None: 30}` through a class with the fields `'1'`, `'None'`, `'x'`. -/
+/-- Non-vacuity: `{1: 20, '1': 10, None: 30}` through a class with the fields `'1'`, `'None'`, `'x'`, as a dict and as a
+UserDict. -/
 example : rowNew 0 (createClass ["1", "None", "x"] false)
-    (.dict ⟨true, [(⟨.other 0, false, false, "1"⟩, 20), (PyKey.ofStr "1", 10), (⟨.other 1, false, false, "None"⟩, 30)]⟩) = some [10, 0, 0] := by decide
+    (.dict ⟨true, true, true, [(⟨.other 0, false, false, "1"⟩, 20), (PyKey.ofStr "1", 10), (⟨.other 1, false, false, "None"⟩, 30)]⟩) = some [10, 0, 0] := by decide
+example : rowNew 0 (createClass ["1", "None", "x"] false)
+    (.dict ⟨false, false, true, [(⟨.other 0, false, false, "1"⟩, 20), (PyKey.ofStr "1", 10), (⟨.other 1, false, false, "None"⟩, 30)]⟩) = some [10, 0, 0] := by decide
 
-/-- The same for a dictionary keyed by text only (exact `dict` or an instance of a subclass), in the vocabulary of the
-kernel theorems -- and a row built from a tuple is that tuple. -/
-theorem row_from_dict_spec (null : α) (fields : List String) (d : List (String × α)) (t : List α) (exact : Bool) :
-    rowNew null (createClass fields false) (.dict ⟨exact, ofTextItems d⟩)
+/-- The same for a mapping keyed by text only (exact `dict`, an instance of a subclass, or a Mapping that is no dict),
+in the vocabulary of the kernel theorems -- and a row built from a tuple is that tuple. -/
+theorem row_from_dict_spec (null : α) (fields : List String) (d : List (String × α)) (t : List α) (exact isDict mutable : Bool) :
+    rowNew null (createClass fields false) (.dict ⟨exact, isDict, mutable, ofTextItems d⟩)
       = some (fields.map fun f => (DictRow.lookup f d).getD null)
     ∧ ∀ b, rowNew null (createClass fields b) (.tuple t) = some t := by
   refine ⟨?_, fun _ => rfl⟩
@@ -838,15 +848,15 @@ theorem row_from_dict_spec (null : α) (fields : List String) (d : List (String 
 /-- …and through the helper as written: the row is what `extract_dict_columns` (statement by statement from the
 `.pyx`) returns on the helper's view of the prepared dictionary. -/
 theorem row_from_dict_through_generated_helper (null : α) (fields : List String) (d : PyDict α) :
-    (Gen.KernelFns.extract_dict_columns null (helperView (Gen.DictGlue.rowPrepare d).items) fields).toOption
+    (Gen.KernelFns.extract_dict_columns null (helperView (Gen.DictGlue.rowPrepare (Gen.DictGlue.rowPre d)).items) fields).toOption
       = rowNew null (createClass fields false) (.dict d) := by
   rw [generated_extract_spec]
-  have h := (row_prepare_keeps_dictionary d).1
-  simp [rowNew, rowNewOf, createClass, Gen.DictGlue.rowGuard, h, Except.toOption]
+  have h := row_prepare_keeps_dictionary d
+  simp [rowNew, rowNewOf, createClass, h.1, h.2.1, Except.toOption]
 
 /-- **The second layer, `DataFrame.append(dict)`**: the statements of `append` that rebind the entry before it reaches
 the row factory (as the source has them now, `Gen.DictGlue.appendPrepare`) followed by `Row.__new__` store
-`tuple(entry.get(f) for f in fields)` -- for every dictionary, keys of any kind. -/
+`tuple(entry.get(f) for f in fields)` -- for every mapping, keys of any kind. -/
 theorem append_from_dict_is_get_per_field (null : α) (fields : List String) (d : PyDict α) :
     rowNew null (createClass fields false) (.dict (Gen.DictGlue.appendPrepare d))
       = some (fields.map fun f => (d.get f).getD null) := by
@@ -854,15 +864,25 @@ theorem append_from_dict_is_get_per_field (null : α) (fields : List String) (d 
   congr 1
   apply List.map_congr_left
   intro f _
-  obtain ⟨e, items⟩ := d
-  cases e <;> simp [Gen.DictGlue.appendPrepare, PyDict.copy, PyDict.get]
+  obtain ⟨e, i, m, items⟩ := d
+  cases e <;> cases m <;> simp [Gen.DictGlue.appendPrepare, PyDict.copy, PyDict.get]
 
 /-- Why both halves of the guard are needed: a test that admits exact dictionaries only (`type(data) is dict`), or
 one that admits subclasses but hands them to the helper uncopied, does not extract an `OrderedDict`. -/
 theorem row_guard_counterexample :
-    rowNewOf (fun d => d.exact) copyStep (0 : Nat) (createClass ["a"] false) (.dict ⟨false, [(PyKey.ofStr "a", 1)]⟩) = none
-    ∧ rowNewOf (fun _ => true) id (0 : Nat) (createClass ["a"] false) (.dict ⟨false, [(PyKey.ofStr "a", 1)]⟩) = none
-    ∧ rowNewOf (fun _ => true) copyStep (0 : Nat) (createClass ["a"] false) (.dict ⟨false, [(PyKey.ofStr "a", 1)]⟩) = some [1] := by
+    rowNewOf mappingStep (fun d => d.exact) copyStep (0 : Nat) (createClass ["a"] false) (.dict ⟨false, true, true, [(PyKey.ofStr "a", 1)]⟩) = none
+    ∧ rowNewOf mappingStep (fun d => d.isDict) id (0 : Nat) (createClass ["a"] false) (.dict ⟨false, true, true, [(PyKey.ofStr "a", 1)]⟩) = none
+    ∧ rowNewOf mappingStep (fun d => d.isDict) copyStep (0 : Nat) (createClass ["a"] false) (.dict ⟨false, true, true, [(PyKey.ofStr "a", 1)]⟩) = some [1] := by
+  decide
+
+/-- Why a Mapping that is no dict is copied into one in front of the dictionary test: without that step a `UserDict`
+(a `ChainMap`, a `MappingProxyType`) does not pass `isinstance(data, dict)` and the row is made of its keys; with it the
+row is the extraction. -/
+theorem row_mapping_counterexample :
+    rowNewOf id (fun d => d.isDict) copyStep (0 : Nat) (createClass ["a", "b"] false)
+        (.dict ⟨false, false, true, [(PyKey.ofStr "b", 2), (PyKey.ofStr "a", 1)]⟩) = none
+    ∧ rowNewOf mappingStep (fun d => d.isDict) copyStep (0 : Nat) (createClass ["a", "b"] false)
+        (.dict ⟨false, false, true, [(PyKey.ofStr "b", 2), (PyKey.ofStr "a", 1)]⟩) = some [1, 2] := by
   decide
 
 /-- Why the dictionary must reach the helper with the keys the caller gave: with a step that re-keys a record by the
@@ -870,14 +890,14 @@ text of its keys (`{str(key): value for …}` whenever some key is not an exact 
 field `'1'` the value stored under the *number* (20; the definition: 10), and `{1: 20}` gives it 20 instead of null
 -- while a dictionary keyed by text only (everything a test-suite feeds) never shows the step. -/
 theorem rekey_counterexample :
-    rowNewOf (fun _ => true) (fun d => rekeyStep (copyStep d)) (0 : Nat) (createClass ["1"] false)
-        (.dict ⟨true, [(PyKey.ofStr "1", 10), (⟨.other 0, false, false, "1"⟩, 20)]⟩) = some [20]
-    ∧ rowNewOf (fun _ => true) copyStep (0 : Nat) (createClass ["1"] false)
-        (.dict ⟨true, [(PyKey.ofStr "1", 10), (⟨.other 0, false, false, "1"⟩, 20)]⟩) = some [10]
-    ∧ rowNewOf (fun _ => true) (fun d => rekeyStep (copyStep d)) (0 : Nat) (createClass ["1"] false)
-        (.dict ⟨true, [(⟨.other 0, false, false, "1"⟩, 20)]⟩) = some [20]
-    ∧ rowNewOf (fun _ => true) copyStep (0 : Nat) (createClass ["1"] false)
-        (.dict ⟨true, [(⟨.other 0, false, false, "1"⟩, 20)]⟩) = some [0] := by
+    rowNewOf mappingStep (fun d => d.isDict) (fun d => rekeyStep (copyStep d)) (0 : Nat) (createClass ["1"] false)
+        (.dict ⟨true, true, true, [(PyKey.ofStr "1", 10), (⟨.other 0, false, false, "1"⟩, 20)]⟩) = some [20]
+    ∧ rowNewOf mappingStep (fun d => d.isDict) copyStep (0 : Nat) (createClass ["1"] false)
+        (.dict ⟨true, true, true, [(PyKey.ofStr "1", 10), (⟨.other 0, false, false, "1"⟩, 20)]⟩) = some [10]
+    ∧ rowNewOf mappingStep (fun d => d.isDict) (fun d => rekeyStep (copyStep d)) (0 : Nat) (createClass ["1"] false)
+        (.dict ⟨true, true, true, [(⟨.other 0, false, false, "1"⟩, 20)]⟩) = some [20]
+    ∧ rowNewOf mappingStep (fun d => d.isDict) copyStep (0 : Nat) (createClass ["1"] false)
+        (.dict ⟨true, true, true, [(⟨.other 0, false, false, "1"⟩, 20)]⟩) = some [0] := by
   decide
 
 /-- …and why no dictionary keyed by text only can tell: on such a dictionary the re-keying step does nothing. -/
@@ -991,7 +1011,7 @@ example : publicCollect ["a", "b"] [⟨true, [1, 2]⟩, ⟨true, [3, 4]⟩, ⟨t
     = (.one [2, 4] : PubOutcome Nat) ∧
   publicCollect ["a", "b"] [⟨true, [1, 2]⟩, ⟨true, [3, 4]⟩] [.idx 0] false (some 4294967296)
     = (.many [[1, 3]] : PubOutcome Nat) := by decide
-example : rowNew 0 (createClass ["x", "y", "z"] false) (.dict ⟨false, ofTextItems [("z", 3), ("x", 1), ("q", 9)]⟩) = some [1, 0, 3] := by decide
+example : rowNew 0 (createClass ["x", "y", "z"] false) (.dict ⟨false, true, true, ofTextItems [("z", 3), ("x", 1), ("q", 9)]⟩) = some [1, 0, 3] := by decide
 example : displayDataWidths ["a", "b"] [⟨true, [some 2, none]⟩, ⟨true, [some 1, some 3]⟩, ⟨true, [some 9, some 12]⟩] 1
     = [some 9, some 12] := by decide
 example : displayDataWidths ["1", "0", "1"] [⟨true, [some 2, none, some 8]⟩, ⟨true, [some 1, some 3, none]⟩] 0
